@@ -77,10 +77,16 @@ def _fs(cl, sort):
     return cl.fp.FSORT_DOUBLE if sort == "DOUBLE" else cl.fp.FSORT_FLOAT
 
 
+# float sorts the concrete backend does not support (C04's crash leg: conversions INTO them raise a claripy error, nothing else)
+_TS = {"HALF": (5, 11), "QUAD": (15, 113), "SINGLE": (8, 24)}
+
+
 def apply_op(cl, p, A, B, X):
     """builds the claripy expression; A, B: FP operands (ASTs), X: BV operand of the needed width"""
     op, rm, fs = p["op"], _clrm(cl, p["rm"]), _fs(cl, p["sort"])
     other = cl.fp.FSORT_FLOAT if p["sort"] == "DOUBLE" else cl.fp.FSORT_DOUBLE
+    if p.get("tsort"):
+        fs = other = cl.fp.FSort(p["tsort"], *_TS[p["tsort"]])
     if op in ARITH:
         return getattr(cl, op)(rm, A, B)
     if op == "fpSqrt":
@@ -165,6 +171,16 @@ def reference(p, a, b, x):
     raise ValueError(op)
 
 
+def truth_obligations(tier):
+    """C10's floating-point leg: comparisons and classifications of concrete floats fold to a Boolean literal, which every truth check then
+    reports: the fold obligations of the Boolean-valued operations (symbolic operand VALUES, including NaN, signed zeros, infinities)"""
+    out = []
+    for oid, p in obligations(tier):
+        if p["leg"] == "fold" and (p["op"] in CMP or p["op"] in ("fpIsNaN", "fpIsInf")):
+            out.append(("fptruth:" + oid[5:], dict(p)))
+    return out
+
+
 def crash_obligations(tier):
     """C04's floating-point leg: the fold obligations of the conversions and of arithmetic, asked only whether folding crashes - for every
     operand value, including the ones whose result SMT-LIB leaves unspecified"""
@@ -176,10 +192,15 @@ def crash_obligations(tier):
             q = dict(p)
             q["crash_only"] = True
             out.append(("fpcrash:" + oid[5:], q))
+    for ts in _TS:
+        for op in ("fpToFP-bv", "fpToFP-sbv", "fpToFP-ubv", "fpToFP-fp"):
+            out.append((f"fpcrash:{op}:into-{ts}", {"leg": "fold", "op": op, "rm": "RNE" if op != "fpToFP-bv" else "-", "sort": "DOUBLE", "n": 8, "tsort": ts, "crash_only": True}))
     return out
 
 
 def _xwidth(p):
+    if p.get("tsort") and p["op"] == "fpToFP-bv":
+        return sum(_TS[p["tsort"]])
     if p["op"] in ("fpToFP-sbv", "fpToFP-ubv"):
         return p["n"]
     return 64 if p["sort"] == "DOUBLE" else 32
@@ -273,7 +294,7 @@ def run_fold(oid, p, tier):
         zconsts = {"fa": a32, "fb": b32, "bx": x}
     fs = _fs(claripy, sort)
     known = common.known_for(common.load_known("C02"), oid)
-    want, pre = reference(p, a, b, x)
+    want, pre = reference(p, a, b, x) if not p.get("crash_only") else (None, None)
 
     def build():
         A = claripy.FPV(E.SFloat(va), fs)
@@ -309,7 +330,8 @@ def run_fold(oid, p, tier):
         return {"harness": "harness.p_c02", "params": p, "vals": {k: str(v) for k, v in vals.items()}, "obligation": oid, "detail": f.detail[:300]}
 
     return symrun.run(oid, width=max(xw + 8, 80), zconsts=zconsts, build=build, check=check, make_case=make_case, max_paths=400,
-                      query_ms=20000 if tier == "quick" else 300000, known=known, sample={"obligation": oid})
+                      query_ms=20000 if tier == "quick" else 300000, known=known, sample={"obligation": oid},
+                      allow_all_exc=bool(p.get("tsort")))   # into an unsupported sort every path raises a claripy error: that IS the documented outcome
 
 
 LITS = [0.0, -0.0, 5e-324, -5e-324, 2.2250738585072014e-308, 1.0, 1.0000000000000002, 0.9999999999999999, 1.7976931348623157e308, float("inf"),
